@@ -274,3 +274,166 @@ LAWS = {
     'wrap': law_wrap, 'fold': law_fold, 'wrap2fold2clip2': law_wrap2_fold2,
     'clip': law_clip, 'round': law_round, 'mod': law_mod, 'inverse': law_inverse,
 }
+
+
+# ---- exact boundary laws ---------------------------------------------------------
+# Independent reference (fractions, no library call) for the quantising family
+# on exactly representable (dyadic) arguments: ties, exact multiples, values at
+# lo / hi, negative receivers, int and float spellings of the same numbers.
+# Documented semantics (SuperCollider SimpleNumber help, formulas quoted in the
+# kernels): round = floor(x/q + 1/2)*q (ties go up - the int path of the same
+# function does exactly that), roundup = ceil(x/q)*q, trunc = floor(x/q)*q
+# (toward zero also accepted for negatives, as in law_round), float wrap
+# into [lo, hi), int wrap into lo..hi, fold reflects at both bounds, mod into
+# [0, b) for b > 0.  Results are compared exactly: every intermediate of the
+# kernels is exact on these arguments.
+
+from fractions import Fraction as _F
+import math as _math
+
+QUANTS = [0.5, 0.25, 0.125, 1.0, 2.0, 4.0, 1, 2, 4, 3, 1.5]
+
+
+def _spell(rng, v):
+    """int or float spelling of an integral number, float otherwise"""
+    if float(v) == int(v) and rng.random() < 0.5:
+        return int(v)
+    return float(v)
+
+
+def _both_spellings(*vals):
+    return all(float(v) == int(v) for v in vals)
+
+
+def _tie_x(rng, q):
+    k = rng.randint(-7, 7)
+    c = rng.random()
+    if c < 0.5:
+        return (k + 0.5) * q, 'tie'
+    if c < 0.7:
+        return k * q, 'exact-multiple'
+    if c < 0.85:
+        return (k + 0.25) * q, 'quarter'
+    return (k + 0.75) * q, 'quarter'
+
+
+def _exact_round(op, x, q):
+    X, Q = _F(x), _F(q)
+    if op == 'round':
+        return [_math.floor(X / Q + _F(1, 2)) * Q]
+    if op == 'roundup':
+        return [_math.ceil(X / Q) * Q]
+    refs = [_math.floor(X / Q) * Q]
+    if X < 0:
+        refs.append(_math.ceil(X / Q) * Q)       # toward zero reading
+    return refs
+
+
+def _lifted(rng, bi_mod_name, x, args):
+    """The same application through one lifted spelling (or plain)."""
+    from sc3.base import builtins as bi
+    from sc3.base.operand import Operand
+    from sc3.base.functions import Function
+    from sc3.synth.ugen import ChannelList
+    c = rng.random()
+    if c < 0.55:
+        return 'plain', getattr(bi, bi_mod_name)(x, *args)
+    if c < 0.7:
+        return 'Operand', getattr(Operand(x), bi_mod_name)(*args).value
+    if c < 0.85:
+        return 'ChannelList', getattr(ChannelList([x, x]), bi_mod_name)(*args)[1]
+    return 'Function', getattr(Function(lambda: x), bi_mod_name)(*args)()
+
+
+def law_exact(bi, rng):
+    fam = rng.choice(['round', 'round', 'round', 'roundup', 'trunc', 'wrap',
+                      'fold', 'clip', 'mod', 'ceilfloor'])
+    if fam in ('round', 'roundup', 'trunc'):
+        q = rng.choice(QUANTS)
+        xv, cls = _tie_x(rng, q)
+        x = _spell(rng, xv)
+        if rng.random() < 0.3 and float(q) == int(q):
+            q = int(q) if isinstance(q, float) else float(q)
+        how, r = _lifted(rng, fam, x, (q,))
+        args = {'op': fam, 'x': x, 'quant': q, 'result': r, 'via': how,
+                'class': cls}
+        refs = _exact_round(fam, x, q)
+        if not any(_F(r) == ref for ref in refs):
+            args['exact_reference'] = float(refs[0])
+            return args, (f'{fam}-differs-from-exact-reference', cls)
+        if _both_spellings(x, q):
+            ri = getattr(bi, fam)(int(x), int(q))
+            rf = getattr(bi, fam)(float(x), float(q))
+            if ri != rf:
+                args.update({'int_spelling': ri, 'float_spelling': rf})
+                return args, (f'{fam}-int-float-spellings-disagree', cls)
+        return args, None
+    if fam in ('wrap', 'fold', 'clip'):
+        lo = rng.choice([-2, -1, 0, 1, -0.5, 0.25, 0.0, -2.0, 1.0])
+        w = rng.choice([1, 2, 3, 0.5, 2.5, 4.0, 1.0])
+        hi = lo + w
+        k = rng.randint(-3, 3)
+        c = rng.random()
+        if c < 0.3:
+            xv, cls = lo + k * w, 'at-lo-plus-k-ranges'
+        elif c < 0.6:
+            xv, cls = hi + k * w, 'at-hi-plus-k-ranges'
+        elif c < 0.8:
+            xv, cls = lo + (k + 0.5) * w, 'mid-range'
+        else:
+            xv, cls = lo + (k + 0.25) * w, 'inside'
+        allint = _both_spellings(lo, hi, xv) and rng.random() < 0.4
+        if allint:
+            x, lo, hi = int(xv), int(lo), int(hi)
+        else:
+            x, lo, hi = float(xv), float(lo), float(hi)
+        how, r = _lifted(rng, fam, x, (lo, hi))
+        args = {'op': fam, 'x': x, 'lo': lo, 'hi': hi, 'result': r, 'via': how,
+                'class': cls + ('/all-int' if allint else '/float')}
+        X, L, H = _F(x), _F(lo), _F(hi)
+        if fam == 'clip':
+            ref = min(max(X, L), H)
+        elif fam == 'wrap':
+            ref = L + (X - L) % (H - L + 1) if allint else L + (X - L) % (H - L)
+        else:
+            R = H - L
+            cc = (X - L) % (2 * R)
+            ref = L + (2 * R - cc if cc > R else cc)
+        if _F(r) != ref:
+            args['exact_reference'] = float(ref)
+            return args, (f'{fam}-differs-from-exact-reference', args['class'])
+        if fam != 'wrap' and _both_spellings(x, lo, hi):
+            f = getattr(bi, fam)
+            ri, rf = f(int(x), int(lo), int(hi)), f(float(x), float(lo), float(hi))
+            if ri != rf:
+                args.update({'int_spelling': ri, 'float_spelling': rf})
+                return args, (f'{fam}-int-float-spellings-disagree', cls)
+        return args, None
+    if fam == 'mod':
+        b = rng.choice([1, 2, 3, 4, 0.5, 0.25, 2.0, 3.0, 1.5])
+        k = rng.randint(-6, 6)
+        xv = rng.choice([k * b, (k + 0.5) * b, (k + 0.25) * b, 0, -b, b])
+        a = _spell(rng, xv)
+        r = bi.mod(a, b)
+        args = {'op': 'mod', 'a': a, 'b': b, 'result': r}
+        ref = _F(a) % _F(b)
+        cls = 'negative-receiver' if a < 0 else 'non-negative-receiver'
+        if _F(r) != ref:
+            args['exact_reference'] = float(ref)
+            return args, ('mod-differs-from-exact-reference', cls)
+        if _both_spellings(a, b) and bi.mod(int(a), int(b)) != bi.mod(float(a), float(b)):
+            return args, ('mod-int-float-spellings-disagree', cls)
+        return args, None
+    # ceil / floor (unary) on halves and integers, both spellings
+    k = rng.randint(-6, 6)
+    x = _spell(rng, rng.choice([k, k + 0.5, k + 0.25, -0.5, 0.5]))
+    which = rng.choice(['ceil', 'floor'])
+    r = getattr(bi, which)(x)
+    args = {'op': which, 'x': x, 'result': r}
+    ref = _math.ceil(_F(x)) if which == 'ceil' else _math.floor(_F(x))
+    if r != ref:
+        return args, (f'{which}-differs-from-exact-reference', 'halves')
+    return args, None
+
+
+LAWS['exact'] = law_exact
